@@ -1,6 +1,7 @@
 """./check configuration for C17."""
 
 PROP = dict(
+    race=True,
     module="GolibsVerif.Theorems.C17", namespace="GolibsVerif.C17",
     rule="scenarios run on the real code with real goroutines behind a start barrier (C17.once: N goroutines over overlapping key "
          "sequences with gated slow constructors; C17.sema: scripted Acquire/Release/cancel with capacity 0..8) plus histories "
